@@ -62,4 +62,13 @@ def judge_delete_releases(req, rr):
     return False, 'no observation (exit %s) %s' % (rr['exit'], rr['tail'][-300:])
 
 
-JUDGES = {'actor_script': judge_actor_script, 'delete_releases': judge_delete_releases, 'half_created': judge_half_created, 'names': judge_names, 'push_attributes': judge_push_attributes, 'streaming_bad_modify': judge_streaming_bad_modify}
+def judge_actor_deadlock(req, rr):
+    for o in rr['obs']:
+        if o.get('scenario') == 'actor_deadlock':
+            if not o['finished']:
+                return True, 'DeleteSubscription issued just before a burst of 40 concurrent Publish calls: neither the delete nor the publishes complete within 3 s (topic actor and subscription actor wait for each other)'
+            return False, 'all requests completed: %s' % o['detail']
+    return False, 'no observation (exit %s) %s' % (rr['exit'], rr['tail'][-300:])
+
+
+JUDGES = {'actor_script': judge_actor_script, 'actor_deadlock': judge_actor_deadlock, 'delete_releases': judge_delete_releases, 'half_created': judge_half_created, 'names': judge_names, 'push_attributes': judge_push_attributes, 'streaming_bad_modify': judge_streaming_bad_modify}
